@@ -569,9 +569,9 @@ def tasks(tier):
         t.append(dict(harness="h_select", cfg=dict(n=[2, 4], pmin=[0, -2], edges=[2, 2], layout=[("s", [0, 0], [2, 2]), ("t", [1, 2], [2, 4])], axis=1, kind="plane", int_corners=True), limits=big))
     # thorough: symbolic mesh geometry as well (1-d and 2-d; minutes per task: nonlinear floor/remainder terms)
     if not q:
-        t.append(dict(harness="h_select", cfg=dict(n=[4], layout=LAYOUTS[1], axis=0, kind="range", symgeo=True), limits=big))
-        t.append(dict(harness="h_select", cfg=dict(n=[3, 2], layout=LAYOUTS[2], axis=0, kind="plane", symgeo=True), limits=big))
-        t.append(dict(harness="h_select", cfg=dict(n=[3, 2], layout=LAYOUTS[2], axis=1, kind="range", symgeo=True), limits=big))
+        t.append(dict(harness="h_select", cfg=dict(n=[4], layout=LAYOUTS[1], axis=0, kind="range", symgeo=True), limits=dict(big, timeout_ms=300000, wall_budget=3300)))
+        t.append(dict(harness="h_select", cfg=dict(n=[3, 2], layout=LAYOUTS[2], axis=0, kind="plane", symgeo=True), limits=dict(big, timeout_ms=300000, wall_budget=3300)))
+        t.append(dict(harness="h_select", cfg=dict(n=[3, 2], layout=LAYOUTS[2], axis=1, kind="range", symgeo=True), limits=dict(big, timeout_ms=300000, wall_budget=3300)))
     # binary64 face coincidence: decimal geometries, subregion corners from mesh.vertices, every cell range (native)
     fp = [dict(n=[10], pmin=[0.0], edges=[1.0], layout=[("s", [0], [6]), ("t", [6], [10])], axis=0),
           dict(n=[4, 3], pmin=[0.1, -0.3], edges=[1.2, 0.9], layout=[("s", [0, 0], [3, 2]), ("t", [1, 1], [4, 3])], axis=0),
